@@ -3,7 +3,9 @@ From Coq Require Import List NArith ZArith Bool.
 From GoPdf.Base Require Import Bytes Res.
 From GoPdf.Gen Require Import Gen_C08 Gen_Limits.
 From GoPdf.C08 Require Import Stream Simple LZW Predict Params Chain Classify Run
-  SimpleProofs LZWProofs PredictProofs ParamsProofs ChainProofs ClassifyProofs BudgetProofs RunProofs Summary.
+  SimpleProofs LZWProofs PredictProofs ParamsProofs ChainProofs ClassifyProofs BudgetProofs RunProofs
+  Charge CCITT ChargeProofs CCITTProofs Summary.
+From GoPdf.Gen Require Import Gen_C08dct.
 Import ListNotations.
 
 (* ---- dec_total ----
@@ -149,6 +151,81 @@ Theorem classify_strict_guarded :
 Proof. exact read_all_strict. Qed.
 Print Assumptions classify_strict_guarded.
 
+(* ---- the budget discipline: charge before allocate, and the charge covers the allocation ---- *)
+
+(* any number of sites on one shared cell: the bytes allocated never exceed the cell's limit *)
+Theorem budget_discipline :
+  forall ss avail, Forall site_ok ss ->
+  (0 <= fst (run_sites avail ss))%Z /\ ((0 <= avail)%Z -> (fst (run_sites avail ss) <= avail)%Z).
+Proof. exact discipline. Qed.
+Print Assumptions budget_discipline.
+
+(* DCT: for 1, 3 or 4 components, ALL sampling factors, all MCU grids and widths, what
+   pixelPlaneBytes charges equals what makeImg allocates; the same for the progressive
+   coefficient blocks (bytesPerProgBlock = 4 * blockSize, translated constants) *)
+Theorem dct_charge_covers_alloc :
+  (forall g mxx smyy, geom_ok g -> (0 <= mxx)%Z -> (0 <= smyy)%Z ->
+     (0 <= plane_alloc g mxx smyy <= plane_charge g mxx smyy)%Z /\
+     plane_alloc g mxx smyy = plane_charge g mxx smyy) /\
+  (forall mxx myy h v, (0 <= mxx)%Z -> (0 <= myy)%Z -> (0 <= h)%Z -> (0 <= v)%Z ->
+     site_ok (prog_site mxx myy h v) /\ s_alloc (prog_site mxx myy h v) = s_charge (prog_site mxx myy h v)).
+Proof. exact dct_charge_covers_alloc_lemma. Qed.
+Print Assumptions dct_charge_covers_alloc.
+
+(* two components: pixelPlaneBytes would not cover makeImg's chroma planes; the SOF parser
+   (1, 3 or 4 components only) keeps that case away *)
+Definition dct_charge_covers_alloc_any_component_count : Prop :=
+  forall g mxx smyy, (0 <= mxx)%Z -> (0 <= smyy)%Z -> (plane_alloc g mxx smyy <= plane_charge g mxx smyy)%Z.
+Theorem dct_charge_two_components_refuted :
+  exists g mxx smyy, g_n g = 2%Z /\ (plane_charge g mxx smyy < plane_alloc g mxx smyy)%Z.
+Proof. exact plane_two_components_uncovered. Qed.
+Print Assumptions dct_charge_two_components_refuted.
+
+(* predictor row buffers, CCITT line buffers, JBIG2 pool (live bytes never exceed the cell),
+   LZW (no charge: 20 KiB of fixed tables per reader) *)
+Theorem charge_covers_alloc :
+  (forall p, pp_validate p = true -> p_pred p <> 1%Z ->
+     site_ok (predict_site p) /\ s_alloc (predict_site p) = s_charge (predict_site p)) /\
+  (forall cols k, (0 < cols)%Z ->
+     site_ok (ccitt_site cols k) /\ s_alloc (ccitt_site cols k) = s_charge (ccitt_site cols k)) /\
+  (forall limit ops, (0 <= limit)%Z ->
+     let p := fst (pool_run (Pool 0 0 limit) ops 0) in (0 <= p_live p <= limit)%Z) /\
+  lzw_table_bytes = 20480%Z.
+Proof. exact charge_covers_alloc_lemma. Qed.
+Print Assumptions charge_covers_alloc.
+
+(* ---- CCITT: rows and the row cap, for every body, table content and reference line ---- *)
+Theorem ccitt_row_cap :
+  forall cols maxrows, (0 <= cols)%Z -> (1 <= maxrows)%Z -> forall rows numrows,
+  Forall (rowev_ok cols) rows -> (0 <= numrows <= maxrows)%Z ->
+  let '(t, n) := ccitt_read cols maxrows rows numrows in
+  (numrows <= n <= maxrows)%Z /\ (0 <= t <= (n - numrows) * plain_bound cols)%Z.
+Proof. exact ccitt_read_cap. Qed.
+Print Assumptions ccitt_row_cap.
+
+(* the bound the filter documents: at most MaxRows rows of ceil(Columns/8) bytes *)
+Theorem ccitt_row_cap_as_documented :
+  forall cols maxrows rows, (0 <= cols)%Z -> (1 <= maxrows)%Z -> Forall (rowev_ok cols) rows ->
+  (0 <= fst (ccitt_read cols maxrows rows 0) <= maxrows * plain_bound cols)%Z.
+Proof. exact ccitt_documented_cap. Qed.
+Print Assumptions ccitt_row_cap_as_documented.
+
+(* the decoder as it was before the repairs F41 and F46 did not have it (kept as a record of
+   what those repairs removed; [row2d_before_F41_F46] is not the current code) *)
+Theorem ccitt_row_before_F41_F46_refuted :
+  (exists cols evs, Forall (ev2_ok cols) evs /\ (plain_bound cols < row2d_before_F41_F46 cols evs (-1) 0)%Z) /\
+  (plain_bound 8 < row2d_before_F41_F46 8 [EVert 8 3] (-1) 0)%Z /\
+  (plain_bound 8 < row2d_before_F41_F46 8 [EHoriz 63 0] (-1) 0)%Z.
+Proof. exact row_before_repairs_too_long. Qed.
+Print Assumptions ccitt_row_before_F41_F46_refuted.
+
+(* the validator run on the real 2-D mode table establishes the premise on vertical-mode events *)
+Theorem ccitt_table_facts :
+  forall t, main_table_ok t = true ->
+  forall st w p, In (st, w, p) t -> (st = S_Vert -> (-3 <= p <= 3)%Z) /\ (st <> S_EOL -> (1 <= w)%Z).
+Proof. exact main_table_vert. Qed.
+Print Assumptions ccitt_table_facts.
+
 (* ---- the hypotheses are satisfiable, the error branches are reachable ---- *)
 Example ex_inv : lz_inv 1 lz_init.
 Proof. apply lz_inv_init. discriminate. Qed.
@@ -176,3 +253,7 @@ Proof. split; cbn; intro H; [reflexivity | discriminate H]. Qed.
 Example ex_source_error_surfaces :
   read_all None [([Some (GE false false false 5)], Some (GE false false false 6))] = Some (GE false false false 5).
 Proof. reflexivity. Qed.
+Example ex_geom : geom_ok (Geom 4 2 2 1 1 2 2 2176) /\ plane_charge (Geom 4 2 2 1 1 2 2 2176) 136 136 = 11846144%Z.
+Proof. split; [unfold geom_ok; cbn; repeat split; auto; discriminate | reflexivity]. Qed.
+Example ex_rowev : Forall (rowev_ok 16) [Row2 [EPass 8; EVert 16 0] false; Row1 [3; 20] true].
+Proof. repeat constructor; cbn; auto with zarith. Qed.
